@@ -1018,7 +1018,9 @@ func memoCase(c *mon.Case) {
 	var calls atomic.Int64
 	wantErr := resultErr(r.IntN(2))
 	slow := r.IntN(3)
-	fn := memo.MemoizeFunc(func() (int, error) {
+	// one case in six: the function panics and its caller recovers; that was the one call there is
+	panics := r.IntN(6) == 0
+	fn0 := memo.MemoizeFunc(func() (int, error) {
 		k := calls.Add(1)
 		c.Rec("fn", "enter", k)
 		switch slow {
@@ -1027,11 +1029,22 @@ func memoCase(c *mon.Case) {
 		case 2:
 			time.Sleep(40 * time.Microsecond)
 		}
+		if panics {
+			panic("the memoized function panics (recovered by its caller)")
+		}
 		return int(1000 + k), wantErr
 	})
 	type res struct {
 		v   int
 		err error
+	}
+	fn := func() (v int, err error) {
+		defer func() {
+			if p := recover(); p != nil {
+				v, err = -1, nil
+			}
+		}()
+		return fn0()
 	}
 	out := make([]res, n)
 	start := make(chan struct{})
@@ -1058,6 +1071,14 @@ func memoCase(c *mon.Case) {
 	c.NonTrivial()
 	if calls.Load() != 1 {
 		c.Violate("once", "memo-call-count", "the memoized function ran %d times for %d concurrent callers", calls.Load(), n)
+	}
+	if panics {
+		c.Count("memo_panicking_function_cases", 1)
+		fn()
+		if calls.Load() != 1 {
+			c.Violate("once", "memo-call-count", "the memoized function panicked (its caller recovered); a later call ran it again: %d calls in total", calls.Load())
+		}
+		return
 	}
 	for i, o := range out {
 		if o.v != 1001 || o.err != wantErr {
